@@ -40,6 +40,15 @@ type CheckDef struct {
 
 var checks = map[string]*CheckDef{}
 
+var scenarioSets = map[string]func(tier string) []*Scenario{}
+
+func scenariosOf(prop, tier string) []*Scenario {
+	if f := scenarioSets[prop]; f != nil {
+		return f(tier)
+	}
+	return nil
+}
+
 func register(c *CheckDef) { checks[c.Property] = c }
 
 func verifDir() string {
